@@ -771,6 +771,143 @@ func thrFreeProp(c ThrFreeCase, r *pbt.R) error {
 	return nil
 }
 
+// ===========================================================================
+// Debounce under the real scheduler and clock, with the machine kept busy: timers then fire late and their functions
+// start even later, so a call (or cancel) can arrive between the firing of a timer and the start of its function.
+// Every assertion is decided by wall-clock bracketing: c1 is read before a call, c2 after it returned, tf as the first
+// thing a debounced function does.
+
+type DebFreeCase struct {
+	Wait  int `json:"wait"`  // index into debFreeWaits
+	Calls int `json:"calls"` // number of calls
+	Jit   int `json:"jit"`   // the gaps are wait + (i*Jit mod 21 - 10) * 10us
+	Load  int `json:"load"`  // busy goroutines per CPU
+}
+
+var debFreeWaits = []time.Duration{2 * ms, 3 * ms}
+
+func debFreeGen(s pbt.Src, thorough bool) DebFreeCase {
+	n := 60
+	if thorough {
+		n = 200
+	}
+	return DebFreeCase{Wait: s.Intn(2), Calls: 20 + s.Intn(n), Jit: 1 + s.Intn(20), Load: 1 + s.Intn(2)}
+}
+
+func debFreeProp(c DebFreeCase, r *pbt.R) error {
+	w := debFreeWaits[((c.Wait%2)+2)%2]
+	ncalls := 1 + ((c.Calls-1)%400+400)%400
+	deb, cancel := gogu.NewDebounce(w)
+	type call struct {
+		c1, c2 time.Duration
+		fired  []time.Duration
+	}
+	t0 := time.Now()
+	var mu sync.Mutex
+	calls := make([]*call, 0, ncalls)
+	stop := make(chan struct{})
+	var bg sync.WaitGroup
+	for i := 0; i < runtime.GOMAXPROCS(0)*(1+((c.Load-1)%2+2)%2); i++ {
+		bg.Add(1)
+		go func() {
+			defer bg.Done()
+			x := 0
+			for {
+				select {
+				case <-stop:
+					return
+				default:
+				}
+				for k := 0; k < 2000; k++ {
+					x += k * k
+				}
+				runtime.Gosched()
+			}
+		}()
+	}
+	for i := 0; i < ncalls; i++ {
+		cl := &call{}
+		cl.c1 = time.Since(t0)
+		deb(func() {
+			tf := time.Since(t0)
+			mu.Lock()
+			cl.fired = append(cl.fired, tf)
+			mu.Unlock()
+		})
+		cl.c2 = time.Since(t0)
+		mu.Lock()
+		calls = append(calls, cl)
+		mu.Unlock()
+		time.Sleep(w + time.Duration((i*c.Jit)%21-10)*10*time.Microsecond)
+	}
+	// a last call that is cancelled at about the instant it is due
+	last := &call{c1: time.Since(t0)}
+	deb(func() {
+		tf := time.Since(t0)
+		mu.Lock()
+		last.fired = append(last.fired, tf)
+		mu.Unlock()
+	})
+	last.c2 = time.Since(t0)
+	time.Sleep(w - 20*time.Microsecond)
+	cancel()
+	cancelled := time.Since(t0)
+	time.Sleep(10*w + 20*ms)
+	close(stop)
+	bg.Wait()
+	mu.Lock()
+	defer mu.Unlock()
+	desc := fmt.Sprintf("debounce(wait %v) under the real scheduler, %d calls about one wait apart, machine busy", w, ncalls)
+	close2, late, firstLate, afterCancel := 0, 0, "", false
+	all := append(append([]*call(nil), calls...), last)
+	for i, ci := range all {
+		if len(ci.fired) > 1 {
+			return fmt.Errorf("%s: the function of call %d ran %d times", desc, i, len(ci.fired))
+		}
+		for _, tf := range ci.fired {
+			if tf < ci.c1+w {
+				return fmt.Errorf("%s: the function of call %d (made at %v or later) ran at %v, sooner than the wait after its own call", desc, i, ci.c1, tf)
+			}
+			for j, cj := range all {
+				if j != i && cj.c2 < tf && tf < cj.c1+w {
+					late++
+					if firstLate == "" {
+						firstLate = fmt.Sprintf("the function of call %d ran at %v, AFTER call %d had returned (%v..%v) and less than the wait after it", i, tf, j, cj.c1, cj.c2)
+					}
+				}
+				if j != i && cj.c1 < tf && tf < cj.c2 {
+					close2++
+				}
+			}
+			if tf > cancelled {
+				afterCancel = true
+			}
+		}
+	}
+	// No implementation can make "commit to run" and the function's first instruction one atomic step (short of holding
+	// its lock while the function runs), so a thread that is descheduled exactly there produces an isolated event of this
+	// kind even in a correct debouncer. Three or more in one case are not scheduling artefacts: the debouncer lets
+	// functions of superseded calls run.
+	if late >= 3 {
+		return fmt.Errorf("%s: %d debounced functions started after a MORE RECENT call had already returned and sooner than the wait after that call (first: %s): a debounced function must not run sooner than the wait after the most recent call", desc, late, firstLate)
+	}
+	if late > 0 {
+		r.Label("isolated late start (tolerated: fewer than 3 per case)")
+	}
+	if afterCancel {
+		r.Label("a function started after cancel returned (single event, not asserted)")
+	}
+	fired := 0
+	for _, ci := range calls {
+		fired += len(ci.fired)
+	}
+	r.NonTrivialIf(fired >= 2 && fired < ncalls, "some functions ran, some were superseded")
+	if close2 > 0 {
+		r.Label("a function started while another call was in progress")
+	}
+	return nil
+}
+
 func TestProp(t *testing.T) {
 	pbt.Run(t, "C20",
 		&pbt.Check[DelayCase]{
@@ -807,6 +944,14 @@ func TestProp(t *testing.T) {
 				"Only what wall-clock bracketing decides is asserted: n permissions need more than n-1 periods, so n <= elapsed/period + 1 with elapsed measured around the whole experiment; every consumer returns after Cancel. Non-trivial = >= 2 permissions under > 100 concurrent triggers.",
 			Gen: thrFreeGen, Prop: thrFreeProp, OutOfEnum: func(ThrFreeCase, bool) bool { return true },
 			RapidQuick: 5, RapidThorough: 60,
+		},
+		&pbt.Check[DebFreeCase]{
+			Name: "debounce-free",
+			Rule: "debounce under the REAL scheduler and clock with busy goroutines on every CPU (timers fire late, their functions start later still): 20..80 (thorough 220) calls spaced one wait (2 or 3ms) +-100us apart, then a call that is cancelled about when it is due. " +
+				"Asserted, all by wall-clock bracketing (c1 before a call, c2 after it returned, tf first thing in the function): tf >= c1 + wait for the function's own call; none runs twice; and fewer than 3 functions per case start after a more recent call has returned and sooner than the wait after that call began (an isolated such event can be a thread descheduled between the debouncer's decision and the function's first instruction, which no implementation can exclude; a debouncer that lets superseded functions run produces them by the dozen). " +
+				"Non-trivial = some functions ran and some were superseded.",
+			Gen: debFreeGen, Prop: debFreeProp, OutOfEnum: func(DebFreeCase, bool) bool { return true },
+			RapidQuick: 3, RapidThorough: 30,
 		},
 	)
 }
